@@ -55,6 +55,16 @@ fn one<X: Sx, Y: Sx>(ctx: &Ctx, idx: u64, l: usize, hdr_class: usize, msg_class:
         _ => Hdr::Bytes(rand_bytes(&mut r, 24)),
     };
     let msgs = gen_messages(&mut r, l, msg_class);
+    // prior history on this thread: the same key signs and verifies lists of other sizes first, so that
+    // any state kept between calls (caches keyed too coarsely, extended incorrectly) is in place
+    for pre in [l / 2, l.saturating_sub(1), (l + 2) / 3] {
+        if pre < l {
+            let pm = gen_messages(&mut r, pre, msg_class + 1);
+            if let Some(ps) = ctx.call("sign", "history", Some(l as u64 + 64), || Sig::<X>::sign(Some(&pm), &sk, &pk, hdr.as_opt())).value {
+                let _ = ctx.call("verify", "history", Some(l as u64 + 64), || ps.verify(&pk, Some(&pm), hdr.as_opt()));
+            }
+        }
+    }
     let s = ctx.call("sign", "honest", None, || Sig::<X>::sign(Some(&msgs), &sk, &pk, hdr.as_opt()));
     let Some(sig) = s.value else {
         ctx.inconclusive("C02: honest sign failed (C01's business)");
